@@ -38,6 +38,8 @@ let rhhint = ref []
 let d2states = ref []
 let d2start = ref 0
 let brhint = ref []
+let slot0 = ref None
+let slot1 = ref None
 let rhint = ref []
 let acts = ref []
 let utf8 = ref false
@@ -127,6 +129,23 @@ let () =
             let d2 = mk_dfa (List.rev !d2states) (n_of_int !d2start) [] in
             let r = bisim_ok d1 (n_of_int l1) d2 (n_of_int l2) (mk_pairing !brhint) in
             Buffer.add_string buf (Printf.sprintf "BS %s %s\n" tag (if r then "1" else "0"))
+        | "GS" ->
+            (* store the current graph and behaviour codes as token type k (0 or 1) of the API model *)
+            let k = next () in
+            let entry = (get_graph (), !acts) in
+            if k = 0 then slot0 := Some entry else slot1 := Some entry
+        | "H" ->
+            (* H id partial len bytes nops { code arg } : API history on the two stored token types *)
+            let id = toks.(1) in pos := 2;
+            let partial = next () in let len = next () in
+            let w = List.init len (fun _ -> n_of_int (next ())) in
+            let nops = next () in
+            let ops = List.init (2 * nops) (fun _ -> n_of_int (next ())) in
+            (match !slot0, !slot1 with
+             | Some a, Some b ->
+                 let r = run_history [a; b] !utf8 (partial = 1) w ops in
+                 Buffer.add_string buf (Printf.sprintf "H %s %s\n" id (print_ns r))
+             | _ -> Buffer.add_string buf (Printf.sprintf "H %s NOSLOTS\n" id))
         | "RH" -> let k = next () in
             rhhint := List.init k (fun _ -> let q = next () in let p = next () in let u = next () in let n = next () in
                                    (n_of_int q, ((n_of_int p, n_of_int u), n_of_int n)))
